@@ -5,6 +5,8 @@ open Tw_io
 open Res
 open BinNums
 open Datafile
+open MapItems
+open MapReader
 
 let z = z_of_int
 let zi = int_of_z
@@ -97,6 +99,179 @@ let open_dump (bytes : coq_Z list) ztable queries : string =
        Buffer.contents b
      with Model_panic -> "panic" | Model_hang -> "hang")
 
+
+(* ---------------------------------------------------------------- map layer *)
+let args_txt args = if args = [] then "" else "(" ^ String.concat "," (List.map (fun a -> string_of_int (zi a)) args) ^ ")"
+let gk = function GTooShort -> "TooShort" | GTooShortV2 -> "TooShortV2" | GTooShortV3 -> "TooShortV3"
+  | GInvalidVersion -> "InvalidVersion" | GInvalidStartLayerIndex -> "InvalidStartLayerIndex" | GInvalidNumLayers -> "InvalidNumLayers"
+let sk = function STooShort -> "TooShort" | STooShortV2 -> "TooShortV2" | SInvalidVersion -> "InvalidVersion"
+  | SInvalidSoundIndex -> "InvalidSoundIndex" | SInvalidNumSources -> "InvalidNumSources" | SInvalidDataIndex -> "InvalidDataIndex"
+let qk = function QTooShort -> "TooShort" | QTooShortV2 -> "TooShortV2" | QInvalidVersion -> "InvalidVersion"
+  | QInvalidImageIndex -> "InvalidImageIndex" | QInvalidNumQuads -> "InvalidNumQuads" | QInvalidDataIndex -> "InvalidDataIndex"
+let tk_txt (k, args) =
+  let a = List.map (fun a -> string_of_int (zi a)) args in
+  let col c = "InvalidColor(" ^ c ^ "," ^ String.concat "," a ^ ")" in
+  let n s = s ^ "(" ^ String.concat "," a ^ ")" in
+  match k with
+  | TTooShort -> n "TooShort" | TTooShortV2 -> n "TooShortV2" | TTooShortV3 -> n "TooShortV3"
+  | TTooShortRaceTeleport -> n "TooShortRaceTeleport" | TTooShortRaceSpeedup -> n "TooShortRaceSpeedup"
+  | TTooShortDdraceFront -> n "TooShortDdraceFront" | TTooShortDdraceSwitch -> n "TooShortDdraceSwitch"
+  | TTooShortDdraceTune -> n "TooShortDdraceTune" | TInvalidVersion -> n "InvalidVersion"
+  | TInvalidColorRed -> col "Red" | TInvalidColorGreen -> col "Green" | TInvalidColorBlue -> col "Blue" | TInvalidColorAlpha -> col "Alpha"
+  | TInvalidColorEnvelopeIndex -> n "InvalidColorEnvelopeIndex" | TInvalidImageIndex -> n "InvalidImageIndex"
+  | TInvalidDataIndex -> n "InvalidDataIndex" | TInvalidRaceTeleportDataIndex -> n "InvalidRaceTeleportDataIndex"
+  | TInvalidRaceSpeedupDataIndex -> n "InvalidRaceSpeedupDataIndex" | TInvalidDdraceFrontDataIndex -> n "InvalidDdraceFrontDataIndex"
+  | TInvalidDdraceSwitchDataIndex -> n "InvalidDdraceSwitchDataIndex" | TInvalidDdraceTuneDataIndex -> n "InvalidDdraceTuneDataIndex"
+  | TInvalidFlags -> n "InvalidFlags" | TInvalidWidth -> n "InvalidWidth" | TInvalidHeight -> n "InvalidHeight"
+let lk = function LTooShort -> "TooShort" | LInvalidFlags -> "InvalidFlags" | LInvalidType -> "InvalidType"
+let ik = function ITooShort -> "TooShort" | IInvalidVersion -> "InvalidVersion" | IInvalidDataIndex -> "InvalidDataIndex"
+  | IInvalidWidth -> "InvalidWidth" | IInvalidHeight -> "InvalidHeight" | IInvalidNameIndex -> "InvalidNameIndex"
+let nk = function NTooShort -> "TooShort" | NInvalidVersion -> "InvalidVersion" | NInvalidAuthorIndex -> "InvalidAuthorIndex"
+  | NInvalidVersionIndex -> "InvalidVersionIndex" | NInvalidCreditsIndex -> "InvalidCreditsIndex"
+  | NInvalidLicenseIndex -> "InvalidLicenseIndex" | NInvalidSettingsIndex -> "InvalidSettingsIndex"
+let mk = function
+  | MInconsistentGameLayerDimensions -> "InconsistentGameLayerDimensions" | MInvalidTilesLength -> "InvalidTilesLength"
+  | MInvalidTeleTilesLength -> "InvalidTeleTilesLength" | MInvalidTuneTilesLength -> "InvalidTuneTilesLength"
+  | MInvalidVersion -> "InvalidVersion" | MMalformedImageName -> "MalformedImageName"
+  | MInvalidTilesDimensions -> "InvalidTilesDimensions" | MEmptyVersion -> "EmptyVersion" | MMissingVersion -> "MissingVersion"
+  | MMissingInfo -> "MissingInfo" | MInvalidStringMissingNullTermination -> "InvalidStringMissingNullTermination"
+  | MInvalidStringNullTermination -> "InvalidStringNullTermination"
+  | MInvalidSettingsMissingNullTermination -> "InvalidSettingsMissingNullTermination"
+  | MNoGameLayer -> "NoGameLayer" | MTooManyGameGroups -> "TooManyGameGroups" | MTooManyGameLayers -> "TooManyGameLayers"
+let layer_err_txt = function
+  | LE_Tilemap e -> "Tilemap(" ^ tk_txt e ^ ")"
+  | LE_Quads (k, a) -> "Quads(" ^ qk k ^ args_txt a ^ ")"
+  | LE_Sounds (k, a) -> "DdraceSounds(" ^ sk k ^ args_txt a ^ ")"
+  | LE_Own (k, a) -> lk k ^ args_txt a
+let map_err_txt = function
+  | ME_Group (i, (k, a)) -> Printf.sprintf "Group(%d,%s%s)" (zi i) (gk k) (args_txt a)
+  | ME_Layer (i, e) -> Printf.sprintf "Layer(%d,%s)" (zi i) (layer_err_txt e)
+  | ME_Image (i, (k, a)) -> Printf.sprintf "Image(%d,%s%s)" (zi i) (ik k) (args_txt a)
+  | ME_Info (k, a) -> Printf.sprintf "Info(%s%s)" (nk k) (args_txt a)
+  | ME_Own (k, a) -> mk k ^ args_txt a
+  | ME_Df e -> "Df(" ^ err_txt e ^ ")"
+
+(* value or map error as text; panics / fuel abort the case *)
+let mres (f : 'a -> string) = function
+  | Ok v -> f v
+  | Err e -> map_err_txt e
+  | Panic _ -> raise Model_panic
+  | OutOfFuel -> raise Model_hang
+let mres2 ok bad = function
+  | Ok v -> ok v
+  | Err e -> bad (map_err_txt e)
+  | Panic _ -> raise Model_panic
+  | OutOfFuel -> raise Model_hang
+let mget = function
+  | Ok v -> v
+  | Err e -> failwith ("unexpected map error " ^ map_err_txt e)
+  | Panic _ -> raise Model_panic
+  | OutOfFuel -> raise Model_hang
+
+let opt_txt = function Some v -> string_of_int (zi v) | None -> "n"
+let group_txt (g : group) =
+  let (s, e) = g.g_layers in
+  Printf.sprintf "G(%d,%d,%d,%d,%d-%d,%s,%s)" (zi g.g_offset_x) (zi g.g_offset_y) (zi g.g_parallax_x) (zi g.g_parallax_y)
+    (zi s) (zi e)
+    (match g.g_clipping with Some (((x, y), w), h) -> Printf.sprintf "%d.%d.%d.%d" (zi x) (zi y) (zi w) (zi h) | None -> "n")
+    (hex g.g_name)
+let tilemap_txt (t : tilemap) =
+  let ty = match t.tm_type with
+    | TNormal ((((r, g), b), a), env, image, data) ->
+      Printf.sprintf "Normal(%d.%d.%d.%d,%s,%s,%d)" (zi r) (zi g) (zi b) (zi a)
+        (match env with Some (e, o) -> Printf.sprintf "%d+%d" (zi e) (zi o) | None -> "n") (opt_txt image) (zi data)
+    | TGame d -> Printf.sprintf "Game(%d)" (zi d)
+    | TTele (d, z) -> Printf.sprintf "Tele(%d,%d)" (zi d) (zi z)
+    | TSpeedup (d, z) -> Printf.sprintf "Speedup(%d,%d)" (zi d) (zi z)
+    | TFront (d, z) -> Printf.sprintf "Front(%d,%d)" (zi d) (zi z)
+    | TSwitch (d, z) -> Printf.sprintf "Switch(%d,%d)" (zi d) (zi z)
+    | TTune (d, z) -> Printf.sprintf "Tune(%d,%d)" (zi d) (zi z) in
+  Printf.sprintf "Tilemap(%dx%d,%s,%s)" (zi t.tm_width) (zi t.tm_height) ty (hex t.tm_name)
+let layer_txt (l : layer) =
+  (if l.l_detail then "D" else "") ^
+  (match l.l_t with
+   | LQuads q -> Printf.sprintf "Quads(%d,%d,%s,%s)" (zi q.q_num) (zi q.q_data) (opt_txt q.q_image) (hex q.q_name)
+   | LTilemap t -> tilemap_txt t
+   | LSounds s -> Printf.sprintf "Sounds(%d,%d,%s,%d,%s)" (zi s.s_num) (zi s.s_data) (opt_txt s.s_sound)
+                    (if s.s_legacy then 1 else 0) (hex s.s_name))
+
+let range lo hi = List.init (max 0 (hi - lo)) (fun k -> lo + k)
+
+let map_dump (bytes : coq_Z list) ztable : string =
+  match reader_new bytes with
+  | Err e -> "err " ^ err_txt e
+  | Panic _ -> "panic"
+  | OutOfFuel -> "hang"
+  | Ok r ->
+    (try
+       let unc = uncompress_of ztable in
+       let b = Buffer.create 512 in
+       Buffer.add_string b ("version=" ^ mres (fun v -> string_of_int (zi v)) (map_version r));
+       Buffer.add_string b (" check=" ^ mres (fun _ -> "ok") (map_check_version r));
+       Buffer.add_string b (" info=" ^ mres (fun (i : info) ->
+           Printf.sprintf "(%s,%s,%s,%s,%s)" (opt_txt i.in_author) (opt_txt i.in_version) (opt_txt i.in_credits)
+             (opt_txt i.in_license) (opt_txt i.in_settings)) (map_info r));
+       let (gs, ge) = mget (map_group_indices r) in
+       let jobs = ref [] in
+       let gtxt = List.map (fun i ->
+           match map_group r (z i) with
+           | Ok g ->
+             let (ls, le) = g.g_layers in
+             let ltxt = List.map (fun k ->
+                 match map_layer r (z k) with
+                 | Ok l ->
+                   (match l.l_t with
+                    | LTilemap t ->
+                      let ds = (match t.tm_type with
+                          | TNormal (_, _, _, d) -> [d] | TGame d -> [d]
+                          | TTele (a, c) | TSpeedup (a, c) | TFront (a, c) | TSwitch (a, c) | TTune (a, c) -> [a; c]) in
+                      jobs := (t, ds) :: !jobs
+                    | _ -> ());
+                   Printf.sprintf "%d:%s" k (layer_txt l)
+                 | Err e -> Printf.sprintf "%d:%s" k (map_err_txt e)
+                 | Panic _ -> raise Model_panic | OutOfFuel -> raise Model_hang) (range (zi ls) (zi le)) in
+             Printf.sprintf "%d:%s[%s]" i (group_txt g) (String.concat ";" ltxt)
+           | Err e -> Printf.sprintf "%d:%s" i (map_err_txt e)
+           | Panic _ -> raise Model_panic | OutOfFuel -> raise Model_hang) (range (zi gs) (zi ge)) in
+       Buffer.add_string b (Printf.sprintf " groups=%d-%d[%s]" (zi gs) (zi ge) (String.concat "|" gtxt));
+       let (is, ie) = get (item_type_indices r coq_MAP_ITEMTYPE_IMAGE) in
+       let itxt = List.map (fun i ->
+           Printf.sprintf "%d:%s" i (mres (fun (im : image) ->
+               Printf.sprintf "I(%dx%d,%d,%s)" (zi im.im_width) (zi im.im_height) (zi im.im_name) (opt_txt im.im_data))
+               (map_image r (z i)))) (range (zi is) (zi ie)) in
+       Buffer.add_string b (Printf.sprintf " images=%d-%d[%s]" (zi is) (zi ie) (String.concat "|" itxt));
+       Buffer.add_string b (" game=" ^ mres (fun (g : game_layers) ->
+           Printf.sprintf "%dx%d,%d,%s,%s,%s,%s,%s,%s" (zi g.gm_width) (zi g.gm_height) (zi g.gm_game) (opt_txt g.gm_tele)
+             (opt_txt g.gm_speedup) (opt_txt g.gm_front) (opt_txt g.gm_switch) (opt_txt g.gm_tune) (group_txt g.gm_group))
+           (map_game_layers r));
+       let nd = zi (get (num_data r)) in
+       let dtxt = List.map (fun i ->
+           let i = z i in
+           let p tag ok x = mres2 (fun v -> tag ^ ":" ^ ok v) (fun e -> tag ^ "!" ^ e) x in
+           let cnt v = string_of_int (zi v) in
+           String.concat " " [
+             p "s" hex (map_string unc r i);
+             p "n" hex (map_image_name unc r i);
+             p "c" (fun raw -> String.concat "." (List.map hex (mget (map_settings_list raw)))) (map_settings unc r i);
+             p "t" cnt (map_tiles_raw unc size_of_Tile MInvalidTilesLength r i);
+             p "e" cnt (map_tiles_raw unc size_of_TeleTile MInvalidTeleTilesLength r i);
+             p "p" cnt (map_tiles_raw unc size_of_SpeedupTile MInvalidTeleTilesLength r i);
+             p "w" cnt (map_tiles_raw unc size_of_SwitchTile MInvalidTeleTilesLength r i);
+             p "u" cnt (map_tiles_raw unc size_of_TuneTile MInvalidTuneTilesLength r i);
+             p "i" (fun d -> string_of_int (List.length d)) (map_read unc r i) ]) (range 0 nd) in
+       Buffer.add_string b (" data=[" ^ String.concat "|" dtxt ^ "]");
+       let ttxt = List.concat_map (fun ((t : tilemap), ds) ->
+           List.map (fun d ->
+               let sh size bad = mres (fun (h, w) -> Printf.sprintf "(%d,%d)" (zi h) (zi w))
+                   (map_tiles unc size bad r d t.tm_width t.tm_height) in
+               Printf.sprintf "%dx%d@%d:%s/%s/%s/%s/%s" (zi t.tm_width) (zi t.tm_height) (zi d)
+                 (sh size_of_Tile MInvalidTilesLength) (sh size_of_TeleTile MInvalidTeleTilesLength)
+                 (sh size_of_SpeedupTile MInvalidTeleTilesLength) (sh size_of_SwitchTile MInvalidTeleTilesLength)
+                 (sh size_of_TuneTile MInvalidTuneTilesLength)) ds) (List.rev !jobs) in
+       Buffer.add_string b (" tiles=[" ^ String.concat "|" ttxt ^ "]");
+       Buffer.contents b
+     with Model_panic -> "panic" | Model_hang -> "hang")
+
 (* ser: items "tid/id:payloadhex;..." ; datas "rawhex>storedhex,..." *)
 let parse_items s =
   if s = "-" then [] else
@@ -121,6 +296,7 @@ let run = function
     hex (serialize_stored (z (int_of_string v)) (crude = "1") gs (parse_datas datas))
   | ["open"; h; zt; qs] ->
     open_dump (unhex h) (parse_ztable zt) (List.filter (fun s -> s <> "") (split_on ',' qs))
+  | ["map"; h; zt] -> map_dump (unhex h) (parse_ztable zt)
   | _ -> "model-unknown-case"
 
 let () = main_loop run
